@@ -919,7 +919,7 @@ func (w *World) stepReplay(a replayArgs, r *Rand) string {
 // generation of relayer-side steps
 
 var forgedVariants = []string{"below-threshold", "bits-beyond-voters", "padding-bits", "extra-signer", "missing-signer", "proposer-missing", "dup-signer", "outsider-key",
-	"other-chain", "other-epoch", "other-seq", "other-method", "other-payload", "odd-bitmap-len", "long-bitmap", "empty-bitmap", "claimed-seq", "claimed-epoch", "consistent-other-epoch", "consistent-other-seq"}
+	"other-chain", "other-epoch", "other-seq", "other-method", "other-payload", "odd-bitmap-len", "long-bitmap", "empty-bitmap", "claimed-seq", "claimed-epoch", "consistent-other-epoch", "consistent-other-seq", "onboarding-signers"}
 
 func (w *World) forgedVote(variant string, r *Rand) VoteOpt {
 	cv := w.chainView()
@@ -976,6 +976,44 @@ func (w *World) forgedVote(variant string, r *Rand) VoteOpt {
 			bits = append(bits, n+r.Intn(256-n))
 		}
 		o.Bits = uniqueInts(bits)
+	case "onboarding-signers":
+		// the proposer and every member that has registered in this epoch but is not a voter yet
+		// sign (genuinely), marked at the positions they would get if they were appended to the
+		// list; fewer current voters sign than the quorum needs
+		var ob []int
+		if cur := w.view(); cur != nil {
+			for _, a := range sortedKeys(cur.Voters) {
+				if v := cur.Voters[a]; v.Status == relayertypes.VOTER_STATUS_ON_BOARDING {
+					if m := w.rel().ByAddr[a]; m != nil {
+						ob = append(ob, m.Idx)
+					}
+				}
+			}
+		}
+		if len(ob) == 0 || propIdx < 0 {
+			return w.forgedVote("bits-beyond-voters", r)
+		}
+		o.Signers = append([]int{propIdx}, ob...)
+		var bits []int
+		for j := range ob {
+			bits = append(bits, n+j)
+		}
+		k := 0
+		if need > 1 {
+			k = r.Intn(need) // some current voters as well, but fewer than the quorum needs
+		}
+		for i := 0; i < k && i < len(voterIdx); i++ {
+			o.Signers = append(o.Signers, voterIdx[i])
+			if cv != nil {
+				for pos, v := range cv.Voters {
+					if v != nil && v.Idx == voterIdx[i] {
+						bits = append(bits, pos)
+					}
+				}
+			}
+		}
+		o.Bits = uniqueInts(bits)
+		w.probe("vote-signed-by-onboarding-members")
 	case "padding-bits":
 		// threshold-1 genuine signers plus one marked voter who did not sign
 		o.Signers = []int{}
@@ -1191,7 +1229,7 @@ func (w *World) genBundleStep(r *Rand, sub uint64) Step {
 func (w *World) genGroupStep(r *Rand, sub uint64) Step {
 	cur := w.view()
 	rs := w.rel()
-	var pending, active []int
+	var pending, active, boarding []int
 	for _, m := range w.Members {
 		if v := cur.Voters[m.Addr()]; v != nil {
 			switch v.Status {
@@ -1199,6 +1237,8 @@ func (w *World) genGroupStep(r *Rand, sub uint64) Step {
 				pending = append(pending, m.Idx)
 			case relayertypes.VOTER_STATUS_ACTIVATED:
 				active = append(active, m.Idx)
+			case relayertypes.VOTER_STATUS_ON_BOARDING:
+				boarding = append(boarding, m.Idx)
 			}
 		}
 	}
@@ -1229,6 +1269,14 @@ func (w *World) genGroupStep(r *Rand, sub uint64) Step {
 		idx := pick(r, active)
 		if r.Chance(0.15) {
 			idx = r.Intn(len(w.Members))
+		}
+		// the contract also removes members that have not made it into the group yet: one that has
+		// registered in this epoch (waiting for the election) or one that never registered
+		if len(boarding) > 0 && r.Chance(0.35) {
+			idx = pick(r, boarding)
+			w.probe("removal-of-onboarding-member")
+		} else if len(pending) > 0 && r.Chance(0.15) {
+			idx = pick(r, pending)
 		}
 		return mkStep("rel.group", groupArgs{Action: "remove", Member: idx, Variant: v}, sub)
 	case k < 90:
